@@ -73,7 +73,7 @@ impl<A: ToSocketAddrs> EventSource for UdpSendTo<'_, A> {
                 .get_selector()
                 .add_io_timer(self.io_data, dur);
         }
-        io_data.co.store(co);
+        io_data.store_co(co);
 
         // there is event, re-run the coroutine
         if io_data.io_flag.load(Ordering::Acquire) != 0 {
